@@ -83,6 +83,16 @@ STRENGTHENED = {
              "added after a native dry-run of a first two-feature version missed it, before the first CrossHair run",
     "C19_4": "missed at first (no history edited the automaton itself); added condition c19_fa_edit",
     "C20_5": "C20 had no transducer condition; c20_fst was written after reading the description and before the first run",
+    # ---- third round (groups M-P) ----
+    "C08_5": "needs two terminals whose values differ and whose texts agree (1 / '1'); no C08 family had such terminals: "
+             "condition c08_sametext was written after reading the description and before the first run",
+    "C09_5": "same change as C08_5 (two agents chose it independently), filed under C09; condition c09_sametext was "
+             "written after reading the description and before the first run",
+    "C18_5": "missed at first (no template had a variable that is nullable only through a unit production and is "
+             "predicted twice at one position); the template indirect_epsilon (S -> A A b, A -> B | a, B -> eps | a, "
+             "annotated) was added to c18_fcfg",
+    "C10_5": "needs substitute() with two keys whose grammars mention each other's terminal; c10_ops substitutes one "
+             "terminal only: condition c10_subst2 was written after reading the patch and before the first run",
 }
 root = '/verif/build/muts'
 out = '/verif/seeded'
@@ -110,7 +120,8 @@ for name in sorted(os.listdir(root)):
         "needs_to_manifest": meta.get('needs'),
         "files_changed": meta.get('files_changed'),
         "origin": "written by a sub-agent that saw only the property text and a scratch worktree of /repo (nothing from /verif)",
-        "round": 2 if os.path.exists(os.path.join(src, 'group.txt')) else 1,
+        "round": (3 if open(os.path.join(src, 'group.txt')).read().strip() in "MNOP" else 2)
+        if os.path.exists(os.path.join(src, 'group.txt')) else 1,
         "adapted": meta.get('adapted'),
         "confirmed_by_me": {
             "how": "tools_mut.py confirm: scratch worktree of /repo HEAD; demo.py on the clean tree must exit 0; with patch.diff "
